@@ -1,19 +1,24 @@
-(** * Histories of the whole model, C12 part 5: where a registration's
-    disclose flag comes from.
+(** * Histories of the whole model, C12 part 5: who is in a registration's
+    [reg_disclose] list, and why.
 
-    [step_regs]: a registration present after a step is one present before it
-    with the same flag and procedure (its callees being old ones, or client
-    sessions that joined a registration of a non-"wamp." procedure), or it was
-    created by this step: a REGISTER of a client, answered REGISTERED with this
-    id, and — if the flag is set — with [disclose_caller = true] admitted
-    because the realm allows disclosure or the session's authrole is "trusted"
-    ([disc_created]).
+    [reg_disclose rg] lists the callees of [rg] that asked for the caller's
+    identity at their OWN REGISTER ([disclose_caller = true]) and were allowed
+    to (realm setting, or authrole "trusted").  A callee that joins a shared
+    registration without the option is not in it, whatever the creator asked.
 
-    [reg_origin]: along every history, a registration whose flag is set and
-    which has a client callee has such a creating step in the history.  The
-    flag is the CREATOR's: a session that joins a shared registration later
-    inherits it, whatever its own [disclose_caller] and authrole
-    (see [RealmTraceC12Ex.shared_leak]). *)
+    [step_regs]: a session in the list after a step was in it before, or this
+    step is ITS REGISTER, answered REGISTERED with this registration id, with
+    [disclose_caller = true], admitted ([disc_asked]).  [disc_ok]: the list
+    names callees of the registration, each once — preserved by every step.
+
+    [run_reg_inv] / [reg_origin_proof]: along every history, a client session
+    in the list of registration [rid] has, earlier in the history, its own
+    asking REGISTER, and has been in the list of [rid] in EVERY state since
+    ([disc_witness]).  Consequences: it has been a callee of [rid] and attached
+    ever since ([holder_attached]); an UNREGISTER of [rid] by it answered
+    UNREGISTERED removes it ([step_unregistered_drops_flag]); a session that is
+    not attached is in no list, and joining changes no list: a session id that
+    left and joins again starts without the flag ([join_no_flag]). *)
 From Nexus Require Import Router.Realm Router.AssocLemmas Router.RealmLib Router.RealmProofs
      Router.RealmMetaProofs Router.RealmLeave.
 From Nexus Require Import Router.DealerLib Router.DealerProofs Router.DealerReg Router.DealerCall Router.DealerWf
@@ -24,74 +29,85 @@ From Nexus Require Import Router.RealmTraceLib Router.RealmTrace Router.RealmTra
 From Nexus Require Import Router.RealmTraceC12Dealer.
 From Coq Require Import Lia ZifyN ZifyNat ZifyBool.
 
-Definition rkept (r r' : realm) : Prop := regs_kept (r_dealer r) (r_dealer r').
+Definition rkept (r r' : realm) : Prop :=
+  regs_kept (r_dealer r) (r_dealer r') /\ (disc_ok (r_dealer r) -> disc_ok (r_dealer r')).
+
+Lemma rkept_refl : forall r, rkept r r.
+Proof. intros r. split; [apply rk_refl|auto]. Qed.
+Lemma rkept_trans : forall a b c, rkept a b -> rkept b c -> rkept a c.
+Proof. intros a b c [A1 A2] [B1 B2]. split; [eapply rk_trans; eauto|auto]. Qed.
+Lemma rkept_dk : forall r o r', dk (r_dealer r) o (r_dealer r') -> rkept r r'.
+Proof. intros r o r' [_ A B]. split; assumption. Qed.
+Lemma rkept_same : forall r r', r_dealer r' = r_dealer r -> rkept r r'.
+Proof. intros r r' E. unfold rkept. rewrite E. split; [apply rk_refl|auto]. Qed.
 
 Lemma leave_rk : forall r sid, rkept r (fst (leave r sid)).
 Proof.
-  intros r sid. unfold rkept.
-  destruct (find_session (r_clients r) sid) as [s|] eqn:F; [|rewrite (leave_absent r sid F); apply rk_refl].
+  intros r sid.
+  destruct (find_session (r_clients r) sid) as [s|] eqn:F; [|rewrite (leave_absent r sid F); apply rkept_refl].
   rewrite (leave_event_order r sid s F). unfold leave_core.
   set (r2 := r_set_testaments (r_set_clients r (del_session (r_clients r) sid))
                               (ndel (r_testaments (r_set_clients r (del_session (r_clients r) sid))) sid)).
   change (r_dealer r2) with (r_dealer r).
-  destruct (dealer_remove_session_dk (lookup r2) (r_dealer r) sid) as [[_ D2] _].
+  destruct (dealer_remove_session_dk (lookup r2) (r_dealer r) sid) as [D _].
   destruct (dealer_remove_session (lookup r2) (r_dealer r) sid) as [[d o1] mps]. cbn [fst snd] in *.
   destruct (broker_remove_session _ _ sid) as [[b pg] o2].
   pose proof (meta_publish_all_dealer (mps ++ testament_pubs r sid ++ [on_leave_pub s]) (r_set_broker (r_set_dealer r2 d) b pg)) as E.
-  destruct (meta_publish_all _ _) as [r5 o3]. cbn [fst snd] in *. rewrite E. exact D2.
+  destruct (meta_publish_all _ _) as [r5 o3]. cbn [fst snd] in *. cbn [r_dealer r_set_broker r_set_dealer] in E.
+  apply (rkept_dk r o1 r5). rewrite E. exact D.
 Qed.
 
 Lemma kill_sessions_rk : forall sids r g, rkept r (fst (kill_sessions r sids g)).
 Proof.
-  induction sids as [|sid sids IH]; intros r g; [rewrite kill_sessions_nil; apply rk_refl|].
+  induction sids as [|sid sids IH]; intros r g; [rewrite kill_sessions_nil; apply rkept_refl|].
   rewrite kill_sessions_cons. pose proof (leave_rk r sid) as L.
   destruct (leave r sid) as [r1 o1]. specialize (IH r1 g).
-  destruct (kill_sessions r1 sids g) as [r2 o2]. cbn [fst snd] in *. unfold rkept in *. eapply rk_trans; eauto.
+  destruct (kill_sessions r1 sids g) as [r2 o2]. cbn [fst snd] in *. eapply rkept_trans; eauto.
 Qed.
 
 Lemma run_meta_invocation_rk : forall r o oracle, rkept r (fst (run_meta_invocation r o oracle)).
 Proof.
-  intros r o oracle. unfold rkept, run_meta_invocation.
-  destruct o as [|[rcv m] l]; [apply rk_refl|]. destruct m; try apply rk_refl. destruct l; [|apply rk_refl].
-  destruct (negb (rcv =? meta_id)); [apply rk_refl|].
+  intros r o oracle. unfold run_meta_invocation.
+  destruct o as [|[rcv m] l]; [apply rkept_refl|]. destruct m; try apply rkept_refl. destruct l; [|apply rkept_refl].
+  destruct (negb (rcv =? meta_id)); [apply rkept_refl|].
   destruct (nget (r_metaprocs r) reg) as [proc|].
   - pose proof (meta_call_dealer r proc details args kw oracle) as Ed.
     destruct (meta_call r proc details args kw oracle) as [[r1 resp] kills]. unfold realm_of in Ed. cbn [fst snd] in Ed.
     assert (G : forall d o1, (d, o1) = match resp with
                                         | MYield a k0 => sync_yield (lookup r1) (r_dealer r1) meta_id req [] a k0
                                         | MError e => sync_error (r_dealer r1) meta_id req [] e [] []
-                                        end -> regs_kept (r_dealer r1) d).
+                                        end -> dk (r_dealer r1) o1 d).
     { intros d o1 E. destruct resp.
-      - pose proof (sync_yield_dk (lookup r1) (r_dealer r1) meta_id req [] args0 kw0) as [_ A]. rewrite <- E in A. exact A.
-      - pose proof (sync_error_dk (r_dealer r1) meta_id req [] err [] []) as [_ A]. rewrite <- E in A. exact A. }
+      - pose proof (sync_yield_dk (lookup r1) (r_dealer r1) meta_id req [] args0 kw0) as A. rewrite <- E in A. exact A.
+      - pose proof (sync_error_dk (r_dealer r1) meta_id req [] err [] []) as A. rewrite <- E in A. exact A. }
     destruct (match resp with MYield a k0 => _ | MError e => _ end) as [d o1].
     specialize (G d o1 eq_refl). rewrite Ed in G.
-    destruct kills as [[sids g]|]; [|exact G].
-    pose proof (kill_sessions_rk sids (r_set_dealer r1 d) g) as K. unfold rkept in K.
+    assert (Q : rkept r (r_set_dealer r1 d)) by (apply (rkept_dk r o1 (r_set_dealer r1 d)); exact G).
+    destruct kills as [[sids g]|]; [|exact Q].
+    pose proof (kill_sessions_rk sids (r_set_dealer r1 d) g) as K.
     destruct (kill_sessions (r_set_dealer r1 d) sids g) as [r3 o2]. cbn [fst snd] in *.
-    eapply rk_trans; [exact G|exact K].
-  - pose proof (sync_error_dk (r_dealer r) meta_id req [] e_no_such_procedure [] []) as [_ A].
-    destruct (sync_error _ _ _ _ _ _ _) as [d o1]. exact A.
+    eapply rkept_trans; [exact Q|exact K].
+  - pose proof (sync_error_dk (r_dealer r) meta_id req [] e_no_such_procedure [] []) as A.
+    destruct (sync_error _ _ _ _ _ _ _) as [d o1]. cbn [fst snd] in *. apply (rkept_dk r o1 (r_set_dealer r d)). exact A.
 Qed.
 
 (** ** One client message *)
+Definition asked_now (r : realm) (s : session) (m : cmsg) (out1 : list out) (rid : N) : Prop :=
+  exists req opts proc,
+    m = CRegister req opts proc /\ In (s_id s, RRegistered req rid) out1 /\
+    opt_bool opts "disclose_caller" = true /\
+    (c_disclose (r_cfg r) = true \/ attr_of (s_details s) "authrole" = "trusted").
+
 Definition reg_step (r : realm) (s : session) (m : cmsg) (out1 : list out) (r' : realm) : Prop :=
-  forall rid rg', nget (d_regs (r_dealer r')) rid = Some rg' ->
-    (exists rg, nget (d_regs (r_dealer r)) rid = Some rg /\ reg_disclose rg' = reg_disclose rg /\
-                reg_proc rg' = reg_proc rg /\
-                forall y, In y (reg_callees rg') ->
-                          In y (reg_callees rg) \/ (y = s_id s /\ str_prefix_wamp (reg_proc rg) = false)) \/
-    (exists req opts proc,
-        m = CRegister req opts proc /\ In (s_id s, RRegistered req rid) out1 /\
-        reg_proc rg' = proc /\ str_prefix_wamp proc = false /\ reg_callees rg' = [s_id s] /\
-        reg_disclose rg' = opt_bool opts "disclose_caller" /\
-        (opt_bool opts "disclose_caller" = true ->
-         c_disclose (r_cfg r) = true \/ attr_of (s_details s) "authrole" = "trusted")).
+  (forall rid rg' y, nget (d_regs (r_dealer r')) rid = Some rg' -> In y (reg_disclose rg') ->
+     (exists rg, nget (d_regs (r_dealer r)) rid = Some rg /\ In y (reg_disclose rg)) \/
+     (y = s_id s /\ asked_now r s m out1 rid)) /\
+  (disc_ok (r_dealer r) -> disc_ok (r_dealer r')).
 
 Lemma rk_reg_step : forall r s m out1 r', rkept r r' -> reg_step r s m out1 r'.
 Proof.
-  intros r s m out1 r' K rid rg' H. left. destruct (K rid rg' H) as (rg & H0 & D & P & I).
-  exists rg. split; [exact H0|]. split; [exact D|]. split; [exact P|]. intros y Hy. left. now apply I.
+  intros r s m out1 r' [K1 K2]. split; [|exact K2].
+  intros rid rg' y H Hy. left. destruct (K1 rid rg' H) as (rg & H0 & I). exists rg. split; [exact H0|now apply I].
 Qed.
 
 Theorem handle_regs : forall r s m oracle,
@@ -101,11 +117,9 @@ Proof.
   intros r s m oracle W Hs.
   pose proof (rw_dealer r W) as Wd.
   pose proof (lookup_ok_realm r (rw_meta_id r W)) as LOK.
-  assert (Hnm : N.eqb (s_id s) meta_id = false).
-  { destruct (N.eqb_spec (s_id s) meta_id) as [E|E]; [|reflexivity]. rewrite E in Hs. rewrite (rw_no_meta r W) in Hs. discriminate. }
   assert (Lv : forall r0, rkept r r0 -> rkept r (fst (leave r0 (s_id s)))).
-  { intros r0 K. unfold rkept in *. eapply rk_trans; [exact K|apply leave_rk]. }
-  assert (Same : rkept r r) by apply rk_refl.
+  { intros r0 K. eapply rkept_trans; [exact K|apply leave_rk]. }
+  assert (Same : rkept r r) by apply rkept_refl.
   destruct m; cbn [handle].
   - apply rk_reg_step. destruct (publish _ _ _ _ _ _ _ _ _ _ _) as [[b pg] o].
     destruct (publish_aborts _ _ _ _); [|exact Same].
@@ -114,207 +128,227 @@ Proof.
   - apply rk_reg_step. destruct (unsubscribe _ _ _ _ _) as [[b pg] o]. exact Same.
   - (* REGISTER *)
     pose proof (register_regs (r_cfg r) (r_dealer r) s req opts proc) as RR.
-    destruct (register _ _ _ _ _ _) as [[d o] mps]. cbn [fst snd] in RR.
+    pose proof (register_ok (r_cfg r) (r_dealer r) s req opts proc (wf_regs _ _ Wd)) as RO.
+    destruct (register _ _ _ _ _ _) as [[d o] mps]. cbn [fst snd] in RR, RO.
     pose proof (meta_publish_all_dealer mps (r_set_dealer r d)) as E.
     destruct (meta_publish_all _ mps) as [r1 o1]. cbn [fst snd] in *. cbn [r_dealer r_set_dealer] in E.
-    intros rid rg' H. rewrite E in H.
-    destruct (RR rid rg' (wf_regs _ _ Wd) H) as [(rg & H0 & D & P & I)|(Ho & D & P & Cs & A1 & A2)].
-    + left. exists rg. split; [exact H0|]. split; [exact D|]. split; [exact P|].
-      intros y Hy. destruct (I y Hy) as [Hy'|(-> & Pp & A1 & _)]; [now left|right].
-      split; [reflexivity|]. rewrite Pp. rewrite Hnm in A1. cbn [negb] in A1. rewrite andb_true_r in A1. exact A1.
-    + right. exists req, opts, proc. split; [reflexivity|]. split; [apply in_or_app; now left|].
-      split; [exact P|]. rewrite Hnm in A1. cbn [negb] in A1. rewrite andb_true_r in A1.
-      split; [exact A1|]. split; [exact Cs|]. split; [exact D|].
-      intros Hd. rewrite Hd in A2. cbn [andb] in A2. rewrite andb_true_r in A2.
-      destruct (c_disclose (r_cfg r)); [now left|right]. cbn [negb andb] in A2.
-      apply negb_false_iff in A2. now apply String.eqb_eq.
+    split; [|rewrite E; exact RO].
+    intros rid rg' y H Hy. rewrite E in H.
+    destruct (RR rid rg' y (wf_regs _ _ Wd) H Hy) as [K|(-> & Ho & Hd & Al)]; [now left|right].
+    split; [reflexivity|]. exists req, opts, proc. split; [reflexivity|]. split; [apply in_or_app; now left|]. auto.
   - (* UNREGISTER *)
     apply rk_reg_step.
-    pose proof (unregister_dk (r_dealer r) (s_id s) req reg) as [_ D].
+    pose proof (unregister_dk (r_dealer r) (s_id s) req reg) as D.
     destruct (unregister _ _ _ _) as [[d o] mps]. cbn [fst snd] in *.
     pose proof (meta_publish_all_dealer mps (r_set_dealer r d)) as E.
-    destruct (meta_publish_all _ mps) as [r1 o1]. cbn [fst snd] in *. unfold rkept. rewrite E. exact D.
+    destruct (meta_publish_all _ mps) as [r1 o1]. cbn [fst snd] in *. cbn [r_dealer r_set_dealer] in E.
+    apply (rkept_dk r o r1). rewrite E. exact D.
   - (* CALL *)
     apply rk_reg_step.
     pose proof (call_c12 (r_cfg r) (lookup r) (r_now r) (r_dealer r) s req opts proc args kw oracle Wd LOK) as CF.
     destruct (call _ _ _ _ _ _ _ _ _ _ _) as [d o|o|d callee' o].
-    + cbn [fst]. apply CF.
+    + cbn [fst]. apply (rkept_dk r o (r_set_dealer r d)). exact (proj1 CF).
     + specialize (Lv r Same). destruct (leave r (s_id s)) as [r1 o1]. exact Lv.
-    + destruct CF as (_ & K & _).
+    + destruct CF as (K & _).
       pose proof (run_meta_invocation_rk (update_session (r_set_dealer r d) callee') o oracle) as R.
-      unfold rkept in *. eapply rk_trans; [|exact R].
+      eapply rkept_trans; [|exact R]. apply (rkept_dk r o).
       destruct (update_session_frame (r_set_dealer r d) callee') as (_ & _ & _ & -> & _). exact K.
-  - apply rk_reg_step. pose proof (cancel_dk (lookup r) (r_dealer r) (s_id s) req opts) as [_ D].
-    destruct (cancel _ _ _ _ _) as [d o]. exact D.
-  - apply rk_reg_step. pose proof (sync_yield_dk (lookup r) (r_dealer r) (s_id s) req opts args kw) as [_ D].
+  - apply rk_reg_step. pose proof (cancel_dk (lookup r) (r_dealer r) (s_id s) req opts) as D.
+    destruct (cancel _ _ _ _ _) as [d o]. apply (rkept_dk r o (r_set_dealer r d)). exact D.
+  - apply rk_reg_step. pose proof (sync_yield_dk (lookup r) (r_dealer r) (s_id s) req opts args kw) as D.
     destruct (sync_yield _ _ _ _ _ _ _) as [d o]. cbn [fst snd] in *.
-    destruct (yield_aborts _ _ _ _ _); [|exact D].
-    specialize (Lv (r_set_dealer r d) D). destruct (leave (r_set_dealer r d) (s_id s)) as [r1 o1]. exact Lv.
+    assert (Q : rkept r (r_set_dealer r d)) by (apply (rkept_dk r o (r_set_dealer r d)); exact D).
+    destruct (yield_aborts _ _ _ _ _); [|exact Q].
+    specialize (Lv (r_set_dealer r d) Q). destruct (leave (r_set_dealer r d) (s_id s)) as [r1 o1]. exact Lv.
   - apply rk_reg_step. destruct (negb (ty =? c_INVOCATION)).
     + specialize (Lv r Same). destruct (leave r (s_id s)) as [r1 o1]. exact Lv.
-    + pose proof (sync_error_dk (r_dealer r) (s_id s) req details err args kw) as [_ D].
-      destruct (sync_error _ _ _ _ _ _ _) as [d o]. exact D.
+    + pose proof (sync_error_dk (r_dealer r) (s_id s) req details err args kw) as D.
+      destruct (sync_error _ _ _ _ _ _ _) as [d o]. apply (rkept_dk r o (r_set_dealer r d)). exact D.
   - apply rk_reg_step. specialize (Lv r Same). destruct (leave r (s_id s)) as [r1 o1]. exact Lv.
   - apply rk_reg_step. specialize (Lv r Same). destruct (leave r (s_id s)) as [r1 o1]. exact Lv.
 Qed.
 
 (** ** One step *)
-Definition disc_created (r : realm) (o : op) (rid : N) : Prop :=
-  exists x m orc xs req opts proc,
-    o = OMsg x m orc /\ find_session (r_clients r) x = Some xs /\
-    gate r xs m = inl (CRegister req opts proc) /\
-    In (x, RRegistered req rid) (snd (step r o)) /\
+(** the step [o] is the REGISTER of [y] itself, answered REGISTERED [rid],
+    asking for the caller's identity, admitted *)
+Definition disc_asked (r : realm) (o : op) (rid y : N) : Prop :=
+  exists m orc ys req opts proc,
+    o = OMsg y m orc /\ find_session (r_clients r) y = Some ys /\
+    gate r ys m = inl (CRegister req opts proc) /\
+    In (y, RRegistered req rid) (snd (step r o)) /\
     opt_bool opts "disclose_caller" = true /\
-    (c_disclose (r_cfg r) = true \/ attr_of (s_details xs) "authrole" = "trusted").
+    (c_disclose (r_cfg r) = true \/ attr_of (s_details ys) "authrole" = "trusted").
 
 Theorem step_regs : forall r o,
     realm_wf r ->
-    forall rid rg', nget (d_regs (r_dealer (fst (step r o)))) rid = Some rg' ->
-      (exists rg, nget (d_regs (r_dealer r)) rid = Some rg /\ reg_disclose rg' = reg_disclose rg /\
-                  reg_proc rg' = reg_proc rg /\
-                  forall y, In y (reg_callees rg') ->
-                            In y (reg_callees rg) \/ (y <> meta_id /\ str_prefix_wamp (reg_proc rg) = false)) \/
-      (str_prefix_wamp (reg_proc rg') = false /\ (reg_disclose rg' = true -> disc_created r o rid)).
+    (forall rid rg' y, nget (d_regs (r_dealer (fst (step r o)))) rid = Some rg' -> In y (reg_disclose rg') ->
+       (exists rg, nget (d_regs (r_dealer r)) rid = Some rg /\ In y (reg_disclose rg)) \/ disc_asked r o rid y) /\
+    (disc_ok (r_dealer r) -> disc_ok (r_dealer (fst (step r o)))).
 Proof.
-  intros r o W rid rg'.
-  assert (Keep : forall r', rkept r r' -> nget (d_regs (r_dealer r')) rid = Some rg' ->
-            (exists rg, nget (d_regs (r_dealer r)) rid = Some rg /\ reg_disclose rg' = reg_disclose rg /\
-                  reg_proc rg' = reg_proc rg /\
-                  forall y, In y (reg_callees rg') ->
-                            In y (reg_callees rg) \/ (y <> meta_id /\ str_prefix_wamp (reg_proc rg) = false)) \/
-            (str_prefix_wamp (reg_proc rg') = false /\ (reg_disclose rg' = true -> disc_created r o rid))).
-  { intros r' K H. left. destruct (K rid rg' H) as (rg & H0 & D & P & I).
-    exists rg. split; [exact H0|]. split; [exact D|]. split; [exact P|]. intros y Hy. left. now apply I. }
+  intros r o W.
+  assert (Keep : forall r', rkept r r' ->
+            (forall rid rg' y, nget (d_regs (r_dealer r')) rid = Some rg' -> In y (reg_disclose rg') ->
+               (exists rg, nget (d_regs (r_dealer r)) rid = Some rg /\ In y (reg_disclose rg)) \/ disc_asked r o rid y) /\
+            (disc_ok (r_dealer r) -> disc_ok (r_dealer r'))).
+  { intros r' [K1 K2]. split; [|exact K2]. intros rid rg' y H Hy. left.
+    destruct (K1 rid rg' H) as (rg & H0 & I). exists rg. split; [exact H0|now apply I]. }
   destruct o as [sid lc h|sid m oracle|sid|ms].
-  - cbn [step]. unfold join. destruct (negb (has_role h) || is_some (lookup r sid)); [apply Keep, rk_refl|].
-    apply Keep. unfold rkept.
-    match goal with |- context [meta_publish ?R ?MP] => rewrite (meta_publish_dealer MP R) end. apply rk_refl.
+  - cbn [step]. unfold join. destruct (negb (has_role h) || is_some (lookup r sid)); [apply Keep, rkept_refl|].
+    apply Keep, rkept_same. rewrite meta_publish_dealer. reflexivity.
   - pose proof (step_msg_eq r sid m oracle) as Est.
-    destruct (find_session (r_clients r) sid) as [s|] eqn:F; [|rewrite Est; apply Keep, rk_refl].
+    destruct (find_session (r_clients r) sid) as [s|] eqn:F; [|rewrite Est; apply Keep, rkept_refl].
     pose proof (find_session_id _ _ _ F) as Es.
     assert (Hs : find_session (r_clients r) (s_id s) = Some s) by now rewrite Es.
-    destruct (gate r s m) as [m'|out] eqn:Eg; [|rewrite Est; apply Keep, rk_refl].
-    rewrite Est. intros H.
-    destruct (handle_regs r s m' oracle W Hs rid rg' H) as [(rg & H0 & D & P & I)|(req & opts & proc & -> & Ho & P & Pw & Cs & D & A)].
-    + left. exists rg. split; [exact H0|]. split; [exact D|]. split; [exact P|].
-      intros y Hy. destruct (I y Hy) as [Hy'|(-> & Pp)]; [now left|right]. split; [|exact Pp].
-      intros E. rewrite E in Hs. rewrite (rw_no_meta r W) in Hs. discriminate.
-    + right. rewrite P. split; [exact Pw|]. intros Hd. rewrite D in Hd.
-      exists sid, m, oracle, s, req, opts, proc. split; [reflexivity|]. split; [exact F|]. split; [exact Eg|].
-      split; [rewrite Est, <- Es; exact Ho|]. split; [exact Hd|exact (A Hd)].
+    destruct (gate r s m) as [m'|out] eqn:Eg; [|rewrite Est; apply Keep, rkept_refl].
+    rewrite Est. destruct (handle_regs r s m' oracle W Hs) as [H1 H2]. split; [|exact H2].
+    intros rid rg' y H Hy.
+    destruct (H1 rid rg' y H Hy) as [K|(-> & req & opts & proc & -> & Ho & Hd & Al)]; [now left|right].
+    rewrite Es. exists m, oracle, s, req, opts, proc. split; [reflexivity|]. split; [exact F|]. split; [exact Eg|].
+    split; [rewrite Est, <- Es; exact Ho|]. auto.
   - cbn [step]. apply Keep, leave_rk.
   - cbn [step]. set (r1 := r_set_now r (r_now r + ms)).
-    pose proof (fire_timers_dk (lookup r1) (r_now r1) (r_dealer r1)) as [_ D].
-    destruct (fire_timers _ _ _) as [d out]. cbn [fst snd] in *. apply Keep. exact D.
+    pose proof (fire_timers_dk (lookup r1) (r_now r1) (r_dealer r1)) as D.
+    destruct (fire_timers _ _ _) as [d out]. cbn [fst snd] in *. apply Keep.
+    apply (rkept_dk r out (r_set_dealer r1 d)). exact D.
 Qed.
 
-(** ** The initial registrations: the meta procedures *)
-Lemma register_procs : forall cfg d callee req opts proc rid rg',
-    nget (d_regs (fst (fst (register cfg d callee req opts proc)))) rid = Some rg' ->
-    (exists rid0 rg, nget (d_regs d) rid0 = Some rg /\ reg_proc rg' = reg_proc rg) \/ reg_proc rg' = proc.
+(** ** The initial registrations *)
+Lemma init_fold_ok : forall cfg names d procs j,
+    dealer_wf lk0 d -> d_idgen d <= j -> cr_nonempty (d_callee_regs d) -> d_calls d = [] -> regs_pos d ->
+    j + N.of_nat (List.length names) <= max_idN -> disc_ok d ->
+    disc_ok (fst (fold_left (init_f cfg) names (d, procs))).
 Proof.
-  intros cfg d callee req opts proc rid rg'. unfold register.
-  assert (Keep : nget (d_regs d) rid = Some rg' ->
-                 (exists rid0 rg, nget (d_regs d) rid0 = Some rg /\ reg_proc rg' = reg_proc rg) \/ reg_proc rg' = proc)
-    by (intros H; left; exists rid, rg'; auto).
-  destruct (negb (valid_uri _ _ _)); [cbn [fst]; exact Keep|].
-  destruct (str_prefix_wamp proc && _); [cbn [fst]; exact Keep|].
-  destruct (negb (c_disclose cfg) && _ && _); [cbn [fst]; exact Keep|].
-  destruct (match sget _ _ with Some id => nget (d_regs d) id | None => None end) as [rg|] eqn:M.
-  - destruct (negb (shared_policy _) || _ || _); [cbn [fst]; exact Keep|].
-    cbn [fst snd d_regs d_set_regs d_set_callee_regs]. rewrite ngs.
-    destruct (N.eqb_spec rid (reg_id rg)) as [->|Hn]; [|exact Keep].
-    intros E. inversion E; subst rg'. cbn [reg_proc]. left.
-    destruct (sget _ _) as [id|]; [|discriminate]. exists id, rg. split; [exact M|reflexivity].
-  - cbn [fst snd]. intros E.
-    assert (E' : nget (nset (d_regs d) (idgen_next (d_idgen d))
-                            (mkReg (idgen_next (d_idgen d)) proc (opt_string opts "match") (opt_string opts "invoke")
-                                   (opt_bool opts "disclose_caller") (opt_bool opts "forward_timeout") 0 [s_id callee])) rid = Some rg').
-    { destruct (mkind_of (opt_string opts "match")); exact E. }
-    rewrite ngs in E'. destruct (N.eqb_spec rid (idgen_next (d_idgen d))) as [->|Hn]; [|exact (Keep E')].
-    inversion E'; subst rg'. right. reflexivity.
+  intros cfg names; induction names as [|name names IH]; intros d procs j Wd Hj Hc Hcalls Hpos Hb OK;
+    cbn [fold_left]; [exact OK|].
+  cbn [List.length] in Hb.
+  pose proof (init_fold_wf cfg [name] d procs j Wd Hj Hc Hcalls Hpos) as F1.
+  cbv zeta in F1. cbn [fold_left List.length] in F1.
+  pose proof (register_ok cfg d meta_session (N.of_nat (List.length procs) + 1) [("disclose_caller", VBool true)] name
+                          (wf_regs _ _ Wd) OK) as K1.
+  rewrite <- (init_f_fst cfg d procs name) in K1.
+  destruct (init_f cfg (d, procs) name) as [d1 procs']. cbn [fst] in *.
+  destruct F1 as (A & B & C & D & E); [lia|].
+  apply (IH d1 procs' (j + 1)); auto; lia.
 Qed.
 
-Definition all_wamp (d : dealer) : Prop :=
-  forall rid rg, nget (d_regs d) rid = Some rg -> str_prefix_wamp (reg_proc rg) = true.
-
-Lemma init_fold_wamp : forall cfg names d procs,
-    Forall (fun n => str_prefix_wamp n = true) names -> all_wamp d ->
-    all_wamp (fst (fold_left (init_f cfg) names (d, procs))).
+Lemma init_disc_ok : forall cfg, k0 cfg <= max_idN -> disc_ok (r_dealer (init_realm cfg)).
 Proof.
-  intros cfg names; induction names as [|name names IH]; intros d procs Hn Hd; cbn [fold_left]; [exact Hd|].
-  inversion Hn as [|? ? Hn1 Hn2]; subst.
-  pose proof (init_f_fst cfg d procs name) as E.
-  destruct (init_f cfg (d, procs) name) as [d1 procs']. cbn [fst] in E.
-  apply IH; [exact Hn2|]. intros rid rg H. rewrite E in H.
-  destruct (register_procs _ _ _ _ _ _ _ _ H) as [(rid0 & rg0 & H0 & P)|P]; rewrite P; [eapply Hd; eauto|exact Hn1].
-Qed.
-
-Lemma meta_proc_names_wamp : forall cfg, Forall (fun n => str_prefix_wamp n = true) (meta_proc_names cfg).
-Proof.
-  intros cfg. unfold meta_proc_names. destruct (c_meta_kill cfg), (c_meta_modify cfg); cbn [app];
-    repeat (apply Forall_cons; [reflexivity|]); apply Forall_nil.
-Qed.
-
-Lemma init_all_wamp : forall cfg, all_wamp (r_dealer (init_realm cfg)).
-Proof.
-  intros cfg. destruct (init_realm_parts cfg) as (_ & _ & _ & ->). unfold dealer0.
-  apply init_fold_wamp; [apply meta_proc_names_wamp|]. intros rid rg H. discriminate H.
+  intros cfg Hk. unfold k0 in Hk. destruct (init_realm_parts cfg) as (_ & _ & _ & ->). unfold dealer0.
+  apply (init_fold_ok cfg (meta_proc_names cfg) empty_dealer [] 0 (empty_dealer_wf lk0) (N.le_refl 0)).
+  - intros x ids; discriminate.
+  - reflexivity.
+  - intros x rg; discriminate.
+  - lia.
+  - intros rid rg H. discriminate H.
 Qed.
 
 (** ** Histories *)
-Definition disc_witness (cfg : config) (ops : list op) (rid : N) : Prop :=
-  exists pre o post, ops = pre ++ o :: post /\ disc_created (fst (run (init_realm cfg) pre)) o rid.
+Definition holds_flag (r : realm) (rid sid : N) : Prop :=
+  exists rg, nget (d_regs (r_dealer r)) rid = Some rg /\ In sid (reg_disclose rg).
 
-Lemma disc_witness_snoc : forall cfg ops o rid, disc_witness cfg ops rid -> disc_witness cfg (ops ++ [o]) rid.
+(** [sid] asked at some step of the history and has held the flag of [rid]
+    in every state since *)
+Definition disc_witness (cfg : config) (ops : list op) (rid sid : N) : Prop :=
+  exists pre o post,
+    ops = pre ++ o :: post /\ disc_asked (fst (run (init_realm cfg) pre)) o rid sid /\
+    forall mid rest, post = mid ++ rest -> holds_flag (fst (run (init_realm cfg) (pre ++ o :: mid))) rid sid.
+
+Lemma snoc_split : forall {A} (post : list A) o mid rest,
+    post ++ [o] = mid ++ rest ->
+    (rest = [] /\ mid = post ++ [o]) \/ exists rest', rest = rest' ++ [o] /\ post = mid ++ rest'.
 Proof.
-  intros cfg ops o rid (pre & o1 & post & -> & H). exists pre, o1, (post ++ [o]). split; [|exact H].
-  now rewrite <- app_assoc.
+  intros A post o mid rest. destruct rest as [|x rest0] using rev_ind; intros E.
+  - left. rewrite app_nil_r in E. auto.
+  - right. rewrite app_assoc in E. apply app_inj_tail in E. destruct E as [E1 E2]. subst. exists rest0. auto.
 Qed.
 
-(** the invariant: client callees only under non-"wamp." procedures; a set
-    flag belongs to a meta procedure or has its creating step in the history *)
 Definition reg_inv (cfg : config) (ops : list op) (r : realm) : Prop :=
-  forall rid rg, nget (d_regs (r_dealer r)) rid = Some rg ->
-    (forall y, In y (reg_callees rg) -> y <> meta_id -> str_prefix_wamp (reg_proc rg) = false) /\
-    (reg_disclose rg = true -> str_prefix_wamp (reg_proc rg) = true \/ disc_witness cfg ops rid).
+  disc_ok (r_dealer r) /\
+  forall rid sid, holds_flag r rid sid -> sid <> meta_id -> disc_witness cfg ops rid sid.
 
 Theorem run_reg_inv : forall cfg ops,
     Forall op_ok ops -> k0 cfg + N.of_nat (List.length ops) <= max_idN ->
     reg_inv cfg ops (fst (run (init_realm cfg) ops)).
 Proof.
   intros cfg ops. induction ops as [|o ops IH] using rev_ind; intros Ho Hk.
-  - cbn [run fold_left fst]. intros rid rg H. split.
-    + intros y Hy Hn. exfalso.
-      destruct (init_realm_wf cfg) as [W _]; [cbn [List.length] in Hk; lia|].
-      pose proof (wf_regs_att _ _ (rw_dealer _ W) rid rg y H Hy) as A. unfold attached, lookup in A.
-      destruct (init_realm_parts cfg) as (_ & Ec & _). rewrite Ec in A.
-      destruct (N.eqb_spec y meta_id); [contradiction|]. apply A. reflexivity.
-    + intros _. left. exact (init_all_wamp cfg rid rg H).
-  - rewrite run_app1. rewrite app_length in Hk. cbn [List.length] in Hk.
+  - cbn [run fold_left fst]. cbn [List.length] in Hk.
+    assert (OK : disc_ok (r_dealer (init_realm cfg))) by (apply init_disc_ok; lia).
+    split; [exact OK|]. intros rid sid (rg & H & Hy) Hn. exfalso.
+    destruct (init_realm_wf cfg) as [W _]; [lia|].
+    destruct (OK rid rg H) as [I1 _].
+    pose proof (wf_regs_att _ _ (rw_dealer _ W) rid rg sid H (I1 sid Hy)) as A. unfold attached, lookup in A.
+    destruct (init_realm_parts cfg) as (_ & Ec & _). rewrite Ec in A.
+    destruct (N.eqb_spec sid meta_id); [contradiction|]. apply A. reflexivity.
+  - rewrite app_length in Hk. cbn [List.length] in Hk.
     apply Forall_app in Ho. destruct Ho as [Ho1 _].
     assert (W : realm_wf (fst (run (init_realm cfg) ops))) by (apply reachable_realm_wf; [exact Ho1|lia]).
-    specialize (IH Ho1 ltac:(lia)).
-    intros rid rg' H.
-    destruct (step_regs _ o W rid rg' H) as [(rg & H0 & D & P & I)|(Pw & Cr)].
-    + destruct (IH rid rg H0) as [I1 I2]. split.
-      * intros y Hy Hn. rewrite P. destruct (I y Hy) as [Hy'|[_ Pp]]; [now apply (I1 y)|exact Pp].
-      * intros Hd. rewrite D in Hd. rewrite P. destruct (I2 Hd) as [?|Wn]; [now left|right].
-        now apply disc_witness_snoc.
-    + split; [intros; exact Pw|]. intros Hd. right.
-      exists ops, o, []. split; [reflexivity|exact (Cr Hd)].
+    destruct (IH Ho1 ltac:(lia)) as [OK I].
+    destruct (step_regs _ o W) as [S1 S2].
+    split; [rewrite run_app1; auto|].
+    intros rid sid Hf Hn. pose proof Hf as (rg' & H & Hy). rewrite run_app1 in H.
+    destruct (S1 rid rg' sid H Hy) as [(rg & H0 & Hy0)|Asked].
+    + destruct (I rid sid (ex_intro _ rg (conj H0 Hy0)) Hn) as (pre & o1 & post & -> & As & Since).
+      exists pre, o1, (post ++ [o]). split; [now rewrite <- app_assoc|]. split; [exact As|].
+      intros mid rest E. destruct (snoc_split post o mid rest E) as [(-> & ->)|(rest' & -> & ->)].
+      * replace (pre ++ o1 :: post ++ [o]) with ((pre ++ o1 :: post) ++ [o]) by (now rewrite <- app_assoc). exact Hf.
+      * apply (Since mid rest'). reflexivity.
+    + exists ops, o, []. split; [reflexivity|]. split; [exact Asked|].
+      intros mid rest E. symmetry in E. apply app_eq_nil in E. destruct E as [-> _]. exact Hf.
 Qed.
 
-(** a registration with the flag set and a client callee was created by a
-    REGISTER with [disclose_caller = true] of a session that was allowed to
-    ask (realm setting or authrole "trusted") *)
-Theorem reg_origin_proof : forall cfg ops rid rg y,
+Theorem reg_origin_proof : forall cfg ops rid sid,
     Forall op_ok ops -> k0 cfg + N.of_nat (List.length ops) <= max_idN ->
-    nget (d_regs (r_dealer (fst (run (init_realm cfg) ops)))) rid = Some rg ->
-    reg_disclose rg = true -> In y (reg_callees rg) -> y <> meta_id ->
-    disc_witness cfg ops rid.
+    holds_flag (fst (run (init_realm cfg) ops)) rid sid -> sid <> meta_id ->
+    disc_witness cfg ops rid sid.
+Proof. intros cfg ops rid sid Ho Hk Hf Hn. exact (proj2 (run_reg_inv cfg ops Ho Hk) rid sid Hf Hn). Qed.
+
+(** a session in the list is a callee of the registration and attached *)
+Theorem holder_attached : forall cfg ops rid sid,
+    Forall op_ok ops -> k0 cfg + N.of_nat (List.length ops) <= max_idN ->
+    holds_flag (fst (run (init_realm cfg) ops)) rid sid ->
+    (exists rg, nget (d_regs (r_dealer (fst (run (init_realm cfg) ops)))) rid = Some rg /\ In sid (reg_callees rg)) /\
+    (sid = meta_id \/ client (fst (run (init_realm cfg) ops)) sid).
 Proof.
-  intros cfg ops rid rg y Ho Hk H Hd Hy Hn.
-  destruct (run_reg_inv cfg ops Ho Hk rid rg H) as [I1 I2].
-  destruct (I2 Hd) as [Pw|Wn]; [|exact Wn]. rewrite (I1 y Hy Hn) in Pw. discriminate.
+  intros cfg ops rid sid Ho Hk (rg & H & Hy).
+  destruct (run_reg_inv cfg ops Ho Hk) as [OK _]. destruct (OK rid rg H) as [I1 _].
+  pose proof (reachable_realm_wf cfg ops Ho Hk) as W.
+  split; [exists rg; split; [exact H|now apply I1]|].
+  pose proof (wf_regs_att _ _ (rw_dealer _ W) rid rg sid H (I1 sid Hy)) as A. unfold attached, lookup in A.
+  destruct (N.eqb_spec sid meta_id); [now left|right; exact A].
+Qed.
+
+(** UNREGISTER answered UNREGISTERED: out of the list *)
+Theorem step_unregistered_drops_flag : forall r sid m s q rid q' oracle,
+    realm_wf r -> disc_ok (r_dealer r) -> find_session (r_clients r) sid = Some s ->
+    gate r s m = inl (CUnregister q rid) ->
+    In (sid, RUnregistered q') (snd (step r (OMsg sid m oracle))) ->
+    ~ holds_flag (fst (step r (OMsg sid m oracle))) rid sid.
+Proof.
+  intros r sid m s q rid q' oracle W OK F Eg. rewrite step_msg_eq, F, Eg. cbn [handle].
+  pose proof (find_session_id _ _ _ F) as Es. rewrite Es.
+  pose proof (unregister_event_order (r_dealer r) sid q rid) as O.
+  pose proof (no_route_after_unregister_proof (lookup r) (r_dealer r) sid q rid) as NR.
+  pose proof (unregister_dk (r_dealer r) sid q rid) as [_ _ K].
+  destruct (unregister (r_dealer r) sid q rid) as [[d o] mps].
+  pose proof (meta_publish_all_allb mps (r_set_dealer r d)) as M.
+  pose proof (meta_publish_all_dealer mps (r_set_dealer r d)) as E.
+  destruct (meta_publish_all _ mps) as [r1 o1]. cbn [fst snd] in *. cbn [r_dealer r_set_dealer] in E.
+  intros Hin (rg & H & Hy). rewrite E in H. apply in_app_or in Hin.
+  destruct O as [(_ & ->)|(-> & _)].
+  - destruct Hin as [[Hx|[]]|Hx]; [discriminate Hx|]. specialize (M _ Hx). discriminate M.
+  - destruct (NR d mps (rw_dealer r W) eq_refl) as [_ N0].
+    destruct (K OK rid rg H) as [I1 _]. exact (N0 rg H (I1 sid Hy)).
+Qed.
+
+(** a session that is not attached is in no list; joining changes no list *)
+Theorem join_no_flag : forall cfg ops sid l h rid,
+    Forall op_ok ops -> k0 cfg + N.of_nat (List.length ops) <= max_idN ->
+    sid <> meta_id -> ~ client (fst (run (init_realm cfg) ops)) sid ->
+    ~ holds_flag (fst (step (fst (run (init_realm cfg) ops)) (OJoin sid l h))) rid sid.
+Proof.
+  intros cfg ops sid l h rid Ho Hk Hn Hc Hf.
+  assert (Hf0 : holds_flag (fst (run (init_realm cfg) ops)) rid sid).
+  { destruct Hf as (rg & H & Hy). exists rg. split; [|exact Hy]. revert H. cbn [step]. unfold join.
+    destruct (negb (has_role h) || is_some (lookup _ sid)); [auto|]. now rewrite meta_publish_dealer. }
+  destruct (holder_attached cfg ops rid sid Ho Hk Hf0) as [_ [E|C]]; contradiction.
 Qed.
